@@ -224,6 +224,34 @@ class Program(object):
 
 # ---------------------------------------------------------------------------
 
+def _warn_only_if(node):
+    """`if c: <build a message in locals>; warnings.warn(msg)` with no else: observable only through the warning."""
+    cached = getattr(node, '_warn_only', None)
+    if cached is not None:
+        return cached
+    ok = not node.orelse
+    has_warn = False
+    for st in node.body:
+        if isinstance(st, ast.Expr) and isinstance(st.value, ast.Call):
+            f = st.value.func
+            if isinstance(f, ast.Attribute) and f.attr == 'warn' and isinstance(f.value, ast.Name) and f.value.id == 'warnings':
+                has_warn = True
+                continue
+            ok = False
+        elif isinstance(st, (ast.Assign, ast.AugAssign)):
+            tgts = st.targets if isinstance(st, ast.Assign) else [st.target]
+            if not all(isinstance(t, ast.Name) and (t.id.startswith('warn') or t.id.endswith('text') or t.id.endswith('str')) for t in tgts):
+                ok = False
+            # right-hand side: string literal / .format(...) on a literal or on such a name
+            for sub in ast.walk(st.value):
+                if isinstance(sub, ast.Call) and not (isinstance(sub.func, ast.Attribute) and sub.func.attr == 'format'):
+                    ok = False
+        else:
+            ok = False
+    node._warn_only = ok and has_warn
+    return node._warn_only
+
+
 def run_to_completion(gen):
     """Drive an evaluation generator that must not yield (non-generator context)."""
     try:
@@ -445,6 +473,12 @@ class Interp(object):
                 v = yield from self.ev(node.value, env)
             raise _Return(v)
         elif t is ast.If:
+            tst = node.test
+            if isinstance(tst, ast.UnaryOp) and isinstance(tst.op, ast.Not):
+                tst = tst.operand
+            if isinstance(tst, ast.Name) and _warn_only_if(node):
+                self.lookup(tst.id, env)
+                return       # the branch only builds and emits a warning (no-op, DESIGN 2.1): no case split
             c = yield from self.ev(node.test, env)
             if self.truth(c):
                 yield from self.exec_block(node.body, env)
